@@ -185,13 +185,13 @@ class DashOption:
 
     @staticmethod
     def int_or_none_from_string(value: str) -> int | None:
-        if value in {None, '', 'none'}:
+        if value is None or value.lower() in {'', 'none'}:
             return None
         return int(value, 10)
 
     @staticmethod
     def float_or_none_from_string(value: str) -> float | None:
-        if value in {None, '', 'none'}:
+        if value is None or value.lower() in {'', 'none'}:
             return None
         return float(value)
 
